@@ -332,6 +332,24 @@ func (st *State) enter(b *ssa.BasicBlock, pred *ssa.BasicBlock) {
 				st.fr.names[phi.Comment] = phiVals[i]
 			}
 		}
+		// range-over-slice loops: $ranged names the slice being ranged over
+		for i := 0; i < nphi; i++ {
+			phi := b.Instrs[i].(*ssa.Phi)
+			if phi.Comment != "rangeindex" {
+				continue
+			}
+			for blk := range li.body {
+				for _, in := range blk.Instrs {
+					if ia, ok := in.(*ssa.IndexAddr); ok {
+						if bo, ok := ia.Index.(*ssa.BinOp); ok && bo.X == ssa.Value(phi) {
+							if v, ok := st.fr.vals[ia.X]; ok {
+								st.ghostLocals["$ranged"] = v
+							}
+						}
+					}
+				}
+			}
+		}
 		invs := vc.loopClauses(lkey, li.ord, "loop-invariant")
 		if len(invs) == 0 {
 			fail("loop %s#%d has no invariant", lkey, li.ord)
@@ -435,6 +453,12 @@ func (st *State) enter(b *ssa.BasicBlock, pred *ssa.BasicBlock) {
 		}
 		// local cells assigned in the loop
 		vc.havocLocalsInLoop(st, li)
+		// ghost locals may be assigned by anchors inside the loop: unknown at the loop head unless the invariant says otherwise
+		for _, name := range sortedKeys(st.ghostLocals) {
+			if tv, ok := st.ghostLocals[name].(TV); ok && name != "$panicked" && name != "$ranged" {
+				st.ghostLocals[name] = TV{st.declare("gl."+strings.TrimPrefix(name, "$"), tv.T.Sort), tv.Typ}
+			}
+		}
 		for _, c := range invs {
 			e, _ := c.expr()
 			ec := st.evalCtx()
@@ -1156,8 +1180,18 @@ func (st *State) sliceOp(x *ssa.Slice) {
 
 // ---------- interfaces ----------
 
+// tidRepr: dynamic-type identity; type arguments are erased (the code under contract never distinguishes two instantiations of one
+// generic type by a type switch or assertion).
+func tidRepr(t types.Type) string {
+	r := typeRepr(t)
+	if i := strings.Index(r, "["); i >= 0 && !strings.HasPrefix(r, "[]") {
+		r = r[:i]
+	}
+	return r
+}
+
 func (vc *VC) typeID(t types.Type) Term {
-	name := "tid." + typeRepr(t)
+	name := "tid." + tidRepr(t)
 	vc.strLits[name] = "tid"
 	return Term{smtIdent(name), SInt}
 }
@@ -1182,7 +1216,7 @@ func (st *State) makeInterface(v Val, from, to types.Type) Val {
 			if _, isPtr := types.Unalias(from).Underlying().(*types.Pointer); isPtr {
 				r := app("mkptr", SInt, vc.typeID(from), x.T)
 				st.dyn[r.S] = dynInfo{from, v}
-				vc.strLits["ptrtid."+typeRepr(from)] = "ptrtid"
+				vc.strLits["ptrtid."+tidRepr(from)] = "ptrtid"
 				return TV{r, to}
 			}
 			return TV{app("mkint", SInt, vc.typeID(from), x.T), to}
